@@ -105,6 +105,16 @@ func single(s string) *ev.Verdict {
 	if back == nil || back.Cmp(want) != 0 {
 		return ev.V("string:"+zeroClass(want), "NewNumber(%q).String() = %q which does not denote the same value", s, out)
 	}
+	// asking must not change the number: a second String(), and a comparison with a fresh number of the same text
+	var out2 string
+	var cmpFresh int
+	fresh, _, _ := newNumber(s)
+	if esc := sut.Trap("Number", func() { out2 = n.String(); cmpFresh = n.Cmp(fresh) }); esc != nil {
+		return ev.V("panic:Number:"+esc.Frame, "methods of NewNumber(%q) panicked: %s", s, esc.Value)
+	}
+	if out2 != out || cmpFresh != 0 {
+		return ev.V("changed-by-use:"+zeroClass(want), "NewNumber(%q): String() = %q, again %q; compared with a fresh number of the same text afterwards: %d", s, out, out2, cmpFresh)
+	}
 	if new(big.Int).SetUint64(uint64(frac)).Cmp(want.FracDigits()) != 0 {
 		return ev.V("fraction-length:"+zeroClass(want), "NewNumber(%q).LengthOfFractionalPart() = %d, want %v", s, frac, want.FracDigits())
 	}
@@ -166,6 +176,13 @@ func pair(p Pair) *ev.Verdict {
 		return nil // grammar disagreements are the single check's business
 	}
 	want := ra.Cmp(rb)
+	// in every second pair (by its text) the numbers have been asked for their text
+	// before they are compared - the methods must not disturb one another
+	if (len(p.A)+len(p.B))%2 == 1 {
+		if esc := sut.Trap("String", func() { _ = a.String(); _ = b.String(); _ = a.LengthOfFractionalPart() }); esc != nil {
+			return ev.V("panic:String:"+esc.Frame, "String() of %q, %q panicked: %s", p.A, p.B, esc.Value)
+		}
+	}
 	var cmp, rev int
 	var eq, gt, ge, lt, le bool
 	if esc := sut.Trap("Cmp", func() {
